@@ -9,11 +9,11 @@ VideoFaults(c) ==
    IF Base(c) = "h264"
    THEN {[fault |-> "empty", v |-> 0]} \cup {[fault |-> "nalhdr-only", v |-> t] : t \in {0, 1, 5, 7, 8, 24, 25, 26, 27, 28, 29, 30, 31}}
         \cup {[fault |-> f, v |-> 0] : f \in {"stapa-size-beyond", "stapa-size-zero", "stapa-trailing-byte", "stapa-truncate-every",
-                                              "fua-header-only", "fua-start-empty", "fua-end-without-start", "fua-truncate-every",
+                                              "fua-header-only", "fua-start-empty", "fua-end-without-start", "fua-truncate-every", "fua-unfinished",
                                               "single-truncate-every", "flip-every", "huge", "paramset-truncate-every", "paramset-garbage", "paramset-short"}}
    ELSE {[fault |-> "empty", v |-> 0], [fault |-> "one-byte", v |-> 0]} \cup {[fault |-> "nalhdr-only", v |-> t] : t \in {1, 19, 32, 33, 34, 48, 49, 50, 51, 63}}
         \cup {[fault |-> f, v |-> 0] : f \in {"ap-size-beyond", "ap-size-zero", "ap-trailing-byte", "ap-truncate-every",
-                                              "fu-header-only", "fu-start-empty", "fu-end-without-start", "fu-truncate-every",
+                                              "fu-header-only", "fu-start-empty", "fu-end-without-start", "fu-truncate-every", "fu-unfinished",
                                               "single-truncate-every", "flip-every", "huge", "paramset-truncate-every", "paramset-garbage", "paramset-short"}}
 AudioFaults == {[fault |-> f, v |-> 0] : f \in {"empty", "one-byte", "auhdr-len-zero", "auhdr-len-odd", "auhdr-len-beyond", "au-size-beyond",
                                                 "au-size-zero", "au-many", "truncate-every", "flip-every"}}
